@@ -4,14 +4,13 @@ CONSTANTS
   Targets = {"eam_adp"}
   MaxSp = 2
   MaxPots = 0
-  NRs = {3}
+  NRs = {2}
   NRhos = {2}
-  Faults = FALSE
+  Faults = TRUE
   FlushFixed = TRUE
 INVARIANT TypeOK
 INVARIANT NoStuck
-INVARIANT C03_ElementsOnce
-INVARIANT C03_ReaderSeesModel
-INVARIANT C19_Adp
+INVARIANT C17_AllOrNothing
+INVARIANT C17_WholeOrNothing
 INVARIANT C17_DoneMeansWhole
 INVARIANT C17_NoFaultNoRaise
